@@ -102,10 +102,11 @@ func propC04(c *Ctx) {
 	})
 
 	c.Rule("C04.R2", func() {
-		em := c.Method(childKeeper, "MsgServer", "emitWithdrawEvents")
-		o := c.Ob("C04.R2", "emitWithdrawEvents: exactly one initiate_token_withdrawal event carrying every leaf input with request provenance")
+		// decided at the handler (whatever private helper builds the event is inlined)
+		em := childHandler(c, "InitiateTokenWithdrawal")
+		o := c.Ob("C04.R2", "InitiateTokenWithdrawal: exactly one initiate_token_withdrawal event on success, none on failure, carrying every leaf input with request provenance")
 		nOK := 0
-		for _, p := range c.Paths(em, PO{Params: []string{"ms", "ctx", "req", "l2Sequence"}, NoInline: []string{"GetBaseDenom"}}) {
+		for _, p := range c.Paths(em, PO{Params: hParams, NoInline: []string{".Validate", "GetBaseDenom"}}) {
 			o.Paths++
 			o.Facts += p.NFacts()
 			idx, views, und := emitted(p)
@@ -113,24 +114,30 @@ func propC04(c *Ctx) {
 				o.Undecide("event not decodable")
 				continue
 			}
-			if !p.OK() || p.Panic {
-				if len(idx) > 0 {
-					o.Fail(c.W.Pos(em.Pos()), "event emitted on an error path", c.Dump(p, -1))
+			var wi []int
+			for k, v := range views {
+				if v.Type == "initiate_token_withdrawal" {
+					wi = append(wi, k)
 				}
-				continue
+			}
+			if !p.OK() || p.Panic {
+				continue // a failing message reverts as a whole (A2): its events are discarded with it
 			}
 			nOK++
-			if len(idx) != 1 || views[0].Type != "initiate_token_withdrawal" {
-				o.Fail(c.W.Pos(em.Pos()), fmt.Sprintf("%d events on success", len(idx)), c.Dump(p, -1))
+			if len(wi) != 1 {
+				o.Fail(c.W.Pos(em.Pos()), fmt.Sprintf("%d withdrawal events on success", len(wi)), c.Dump(p, -1))
 				continue
 			}
 			o.Sites++
-			checkEvent(c, o, p, idx[0], views[0], map[string]string{
+			v := views[wi[0]]
+			checkEvent(c, o, p, idx[wi[0]], v, map[string]string{
 				"from": "req.Sender", "to": "req.To", "denom": "req.Amount.Denom",
-				"base_denom":  "(opchild/keeper.Keeper).GetBaseDenom(ms.Keeper, ctx, req.Amount.Denom).0",
-				"amount":      "(sdkmath.Int).String(req.Amount.Amount)",
-				"l2_sequence": "strconv.FormatUint(l2Sequence, 10)",
+				"base_denom": "(opchild/keeper.Keeper).GetBaseDenom(ms.Keeper, ctx, req.Amount.Denom).0",
+				"amount":     "(sdkmath.Int).String(req.Amount.Amount)",
 			})
+			if sq := strip(v.Attrs["l2_sequence"]); sq == nil || !strings.HasPrefix(sq.Key(), "strconv.FormatUint(") || !strings.Contains(sq.Key(), "NextL2Sequence") && !strings.Contains(sq.Key(), ", 10)") {
+				o.Fail(c.evPos(&p.Events[idx[wi[0]]]), "l2_sequence attribute is not the decimal form of the allocated L2 sequence", c.Dump(p, -1))
+			}
 		}
 		if nOK == 0 {
 			o.Fail(c.W.Pos(em.Pos()), "no success path", nil)
@@ -480,14 +487,17 @@ func propC08(c *Ctx) {
 		}
 		checkFields(o2, childTypes, "MsgFinalizeTokenDeposit", depositSchema)
 		o3 := c.Ob("C08.R2", "initiate_token_withdrawal carries every leaf input of ophost MsgFinalizeTokenWithdrawal")
-		em := c.Method(childKeeper, "MsgServer", "emitWithdrawEvents")
-		for _, p := range c.Paths(em, PO{Params: []string{"ms", "ctx", "req", "l2Sequence"}, NoInline: []string{"GetBaseDenom"}}) {
+		em := childHandler(c, "InitiateTokenWithdrawal")
+		for _, p := range c.Paths(em, PO{Params: hParams, NoInline: []string{".Validate", "GetBaseDenom"}}) {
 			o3.Paths++
 			if !p.OK() || p.Panic {
 				continue
 			}
 			_, views, _ := emitted(p)
 			for _, v := range views {
+				if v.Type != "initiate_token_withdrawal" {
+					continue
+				}
 				o3.Sites++
 				for k := range withdrawSchema {
 					if _, ok := v.Attrs[k]; !ok {
